@@ -7,14 +7,14 @@ ROOT = os.path.dirname(os.path.dirname(os.path.abspath(__file__)))
 # id -> (technique, level category, level text, level note, design ref)
 CHECKS = {
     "C01": (
-        "property-based testing: generated grammars x inputs; oracle = Earley recogniser + tree validity + table certificate",
+        "property-based testing: generated grammars x inputs; oracle = Earley recogniser + tree validity + table certificate; thorough tier adds a coverage-guided libFuzzer stage over the same decoder and oracle (artifacts re-judged by the engine)",
         "exploration",
         "Random and bounded-exhaustive inputs over generated grammars (all strata); every accepted tree validated against the abstract grammar, language equality against an Earley recogniser when no conflicts are reported.",
         "Trusted: own Earley recogniser (self-tested), abstract-grammar renderer, proptest, rustc. Grammars with precedence declarations excluded from the language-equality clause; grammars whose table can reduce forever without consuming input are outside the parse domain (finding C07-nonconsuming-reduce-loop).",
         "DESIGN.md section 5, C01",
     ),
     "C02": (
-        "property-based testing: differential against an own canonical LR(1) construction and driver",
+        "property-based testing: differential against an own canonical LR(1) construction and driver; thorough tier adds a coverage-guided libFuzzer stage over the same decoder and oracle (artifacts re-judged by the engine)",
         "exploration",
         "Generated LR(1) grammars (70% from LR(1)-not-LALR(1) families): no conflicts, never more states than canonical LR(1), same tree / same error index as a canonical LR(1) parser on every generated input.",
         "Trusted: own canonical LR(1) item-set construction and 20-line LR driver.",
@@ -28,56 +28,56 @@ CHECKS = {
         "DESIGN.md section 5, C03",
     ),
     "C04": (
-        "property-based testing: first error position against Earley's first non-viable prefix",
+        "property-based testing: first error position against Earley's first non-viable prefix; thorough tier adds a coverage-guided libFuzzer stage over the same decoder and oracle (artifacts re-judged by the engine)",
         "exploration",
         "Conflict-free generated grammars x non-sentences: exactly one error at the first lexeme that cannot continue a sentence (recovery off), same first error with recovery on.",
         "Trusted: own Earley recogniser as viable-prefix oracle; recovery run under the cfg(grmtools_verif) hooks (budget override, expansion cap).",
         "DESIGN.md section 5, C04",
     ),
     "C05": (
-        "property-based testing: reference LR driver over the public action/goto API replays every reported repair sequence at the error point and follows the first one; tree and later errors compared",
+        "property-based testing: reference LR driver over the public action/goto API replays every reported repair sequence at the error point and follows the first one; tree and later errors compared; thorough tier adds a coverage-guided libFuzzer stage over the same decoder and oracle (artifacts re-judged by the engine)",
         "exploration",
         "Generated grammars (with and without conflicts) x erroneous inputs x token-cost functions: every reported sequence must apply and repair under replay semantics; continuation (later errors, final tree with zero-length faulty leaves for inserts) must equal the driver's.",
         "Trusted: 60-line reference driver and replay semantics (recov.rs). Recovery runs under the cfg(grmtools_verif) hooks (budget override, expansion cap 1500; capped runs are not judged). Tables that can reduce forever without consuming input are excluded (open finding C07-nonconsuming-reduce-loop).",
         "DESIGN.md section 5, C05",
     ),
     "C06": (
-        "property-based testing: exhaustive uniform-cost enumeration of all minimum-cost repairs under replay semantics as reference model; set equality + ordering clauses",
+        "property-based testing: exhaustive uniform-cost enumeration of all minimum-cost repairs under replay semantics as reference model; set equality + ordering clauses; thorough tier adds a coverage-guided libFuzzer stage over the same decoder and oracle (artifacts re-judged by the engine)",
         "exploration",
         "Same domain as C05 with shorter inputs: the reported list must equal the complete set of minimum-cost, maximally-ranked repairs found by an exhaustive reference search (node budget 60000), with the documented ordering.",
         "Trusted: reference enumeration in recov.rs. Order among sequences of equal group and length not compared. Errors whose reference search exceeds its budget are not judged (counted).",
         "DESIGN.md section 5, C06",
     ),
     "C07": (
-        "property-based testing: invariants over (value, errors) for long multi-error inputs; watchdog + address-space limit for termination",
+        "property-based testing: invariants over (value, errors) for long multi-error inputs; watchdog + address-space limit for termination; thorough tier adds a coverage-guided libFuzzer stage over the same decoder and oracle (artifacts re-judged by the engine)",
         "exploration",
         "Generated cycle-free grammars x inputs with up to 6 error sites x cost functions (1..255): strictly increasing error positions at least 3 lexemes apart, only the last error unrepaired, value iff all repaired, clean value equals recovery-off parse.",
         "Termination observed through a 20 s watchdog (re-confirmed 200 s) and a 3 GB address-space limit in the killable worker. One open finding (non-consuming reduce loop) is excluded by a table-level witness search and demonstrated by a stored replay.",
         "DESIGN.md section 5, C07",
     ),
     "C08": (
-        "property-based testing: parse_actions with recording closures; log must be the post-order of the returned tree; spans recomputed from leaves; differential against parse_map",
+        "property-based testing: parse_actions with recording closures; log must be the post-order of the returned tree; spans recomputed from leaves; differential against parse_map; thorough tier adds a coverage-guided libFuzzer stage over the same decoder and oracle (artifacts re-judged by the engine)",
         "exploration",
         "Generated grammars rich in empty productions x inputs with gapped spans, recovery off and on: one action call per reduction in bottom-up left-to-right order, arguments/parameter/span exact, same tree as the generic parse-tree mode.",
         "Trusted: the recording harness. Position of a zero-length span not asserted; comparison with parse_map under recovery only when no error has more than one repair sequence.",
         "DESIGN.md section 5, C08",
     ),
     "C09": (
-        "property-based testing: differential against a naive reference lexer (position loop, Vec state stack, regex crate compiled from the abstract syntax)",
+        "property-based testing: differential against a naive reference lexer (position loop, Vec state stack, regex crate compiled from the abstract syntax); thorough tier adds a coverage-guided libFuzzer stage over the same decoder and oracle (artifacts re-judged by the engine)",
         "exploration",
         "Generated lex specifications (overlapping rules, inclusive/exclusive start states, push/pop/replace, regex flags) x inputs incl. multi-byte text, through from_str and through Rule::new/from_rules: same lexemes, same single error position, tiling, exact missing-name sets from set_rule_ids.",
         "Trusted: the regex crate as matching oracle, the naive lexer, the abstract-spec renderer. set_rule_ids order as used by all callers (the doc comment's order is stale).",
         "DESIGN.md section 5, C09",
     ),
     "C10": (
-        "property-based testing: print-then-parse round trip of abstract grammars over varied renderings (layout, comments, quoting, declaration order, split rules, yacc kinds, entry points); well-formedness of every accessor; spans against the renderer's layout map",
+        "property-based testing: print-then-parse round trip of abstract grammars over varied renderings (layout, comments, quoting, declaration order, split rules, yacc kinds, entry points); well-formedness of every accessor; spans against the renderer's layout map; thorough tier adds a coverage-guided libFuzzer stage over the same decoder and oracle (artifacts re-judged by the engine)",
         "exploration",
         "Every generated rendering must parse to exactly the abstract grammar (rules in order of first definition, productions in source order, symbols, %prec, precedence levels, %epp, %avoid_insert, %expect, actions, action types, added start rule / Eco implicit rule, one unnamed end-of-input token), with dense numbering, in-range indices, non-panicking accessors and spans that slice the source to the defining text.",
         "Trusted: the renderer and its layout map. Token numbering only required to be a bijection; prod_span end tolerated up to the action brace; action_span only checked to lie between the braces.",
         "DESIGN.md section 5, C10",
     ),
     "C11": (
-        "property-based testing: print-then-parse round trip of abstract lexer specifications over varied renderings and flag placements; behavioural regex comparison; span checks against the renderer's layout map; mutated invalid specifications",
+        "property-based testing: print-then-parse round trip of abstract lexer specifications over varied renderings and flag placements; behavioural regex comparison; span checks against the renderer's layout map; mutated invalid specifications; thorough tier adds a coverage-guided libFuzzer stage over the same decoder and oracle (artifacts re-judged by the engine)",
         "exploration",
         "Rules/order/names/start states/targets and every span compared with the abstract specification and the byte layout recorded while rendering; regex denotation compared by lexing sample strings with one-rule projections; flags in the %grmtools section vs new_with_options; error spans of invalid variants.",
         "Trusted: renderer + layout map, regex crate. re_str() text itself not compared.",
@@ -94,11 +94,11 @@ CHECKS = {
         "translation validation by differential testing: generated (grammar, lexer, settings) pairs are compiled by the real compile-time builders inside one cargo build, the resulting binary compares the generated modules with the run-time pipeline on generated inputs",
         "translation_validation",
         "Per generated program (pair): same lexemes, same value/tree, same errors with the same repair sets, same token_epp and R_*/N_* constants; user actions ($1..$n as Ok/Err, $span, $lexer, $$) validated against a native evaluation of the same action template; settings (yacckind, recoverer, serialisation format, edition, visibility, lexer flags via builder or header) sampled.",
-        "Trusted: the batch crate's glue (engine/ctbatch), rustc. With several equally ranked repairs only results up to the first error are compared. Storage type u32 only.",
+        "Trusted: the batch crate's glue (engine/ctbatch), rustc. With several equally ranked repairs only results up to the first error are compared. Storage type u32 only. Besides the pairs, lexer-only items from the C09/C11 lexer generators are built by CTLexerBuilder with a user-supplied rule_ids_map and compared (definition and lexemes) with the run-time definition.",
         "DESIGN.md section 5, C13",
     ),
     "C14": (
-        "property-based testing: serialise/reconstitute round trip compared through a digest of every public query plus parse results",
+        "property-based testing: serialise/reconstitute round trip compared through a digest of every public query plus parse results; thorough tier adds a coverage-guided libFuzzer stage over the same decoder and oracle (artifacts re-judged by the engine)",
         "exploration",
         "Generated grammars (all kinds and optional declarations) x {fixed, variable} wincode encodings x {u8,u16,u32}: digest(original) == digest(_reconstitute(serialised)) for grammar and table (conflict lists in order), equal parse results on generated inputs.",
         "Trusted: the digest printer (digest.rs) enumerates the public accessors; serialisation called exactly as ctbuilder does.",
@@ -112,14 +112,14 @@ CHECKS = {
         "DESIGN.md section 5, C15",
     ),
     "C16": (
-        "property-based testing: cross-checking every public state-graph / state-table query per state, token and rule; closed states against a reference LR(1) closure",
+        "property-based testing: cross-checking every public state-graph / state-table query per state, token and rule; closed states against a reference LR(1) closure; thorough tier adds a coverage-guided libFuzzer stage over the same decoder and oracle (artifacts re-judged by the engine)",
         "exploration",
         "Generated grammars with and without precedence-resolved and %nonassoc-removed entries: all states x tokens x rules.",
         "Trusted: own LR(1) closure with own FIRST/nullable.",
         "DESIGN.md section 5, C16",
     ),
     "C17": (
-        "property-based testing: grammar analyses against independently written fixed-point / relaxation analyses and Earley derivability; watchdog for termination",
+        "property-based testing: grammar analyses against independently written fixed-point / relaxation analyses and Earley derivability; watchdog for termination; thorough tier adds a coverage-guided libFuzzer stage over the same decoder and oracle (artifacts re-judged by the engine)",
         "exploration",
         "Generated grammars with nullable symbols anywhere, unit cycles, unproductive and unreachable rules x cost functions: FIRST, FOLLOW, epsilon, has_path, min/max costs, minimal sentences.",
         "Trusted: refimpl::analyses and Earley. Exact on reduced grammars, bracketed by the two readings of the definitions otherwise. Termination = answer within a watchdog re-confirmed 10x in a fresh process.",
@@ -128,22 +128,22 @@ CHECKS = {
     "C18": (
         "stateful property-based testing: generated build histories interpreted against the real compile-time builders (one process per build, logical file times), invariant checked after every build against a clean build",
         "exploration",
-        "Histories over {edit grammar, edit lexer, touch, change one of 12 builder options, break grammar (4 ways), break lexer, build}: after every build the generated modules equal a clean build's, regenerated() is false iff nothing changed, true after a grammar/option change, and a failed build leaves no generated file behind.",
+        "Histories over {edit grammar, edit lexer, touch, change one of 17 builder options (incl. strictness about missing tokens, the one-call lrpar_config flow, grammar_path switched between directories or through a symbolic link), break grammar (4 ways), break lexer, build}: after every build the generated modules equal a clean build's, regenerated() is false iff nothing changed, true after a grammar/option change, and a failed build leaves no generated file behind.",
         "Trusted: the ctstep child process harness and the logical clock (filetime). A Touch may or may not regenerate.",
         "DESIGN.md section 5, C18",
     ),
     "C19": (
-        "property-based testing (proptest choice streams, shrinking) against a naive line/column reference model",
+        "property-based testing (proptest choice streams, shrinking) against a naive line/column reference model; thorough tier adds a coverage-guided libFuzzer stage over the same decoder and oracle (artifacts re-judged by the engine)",
         "exploration",
-        "Generated texts x chunkings; every char-boundary offset and every span of each text is compared with a naive scan; exhaustive over offsets/spans per text, random over texts.",
+        "Generated texts x chunkings; every char-boundary offset and every span of each text is queried through NewlineCache, the lexer (line_col, span_lines_str), LexParseError::pp and the builders' SpannedDiagnosticFormatter and compared with a naive scan; exhaustive over offsets/spans per text, random over texts.",
         "Trusted: the naive reference (count of LF / chars since line start), proptest, rustc. Both readings of 'span ends at a line start' accepted.",
         "DESIGN.md section 5, C19",
     ),
     "C20": (
         "property-based testing + boundary enumeration: every grammar built with u8, u16 and u32 and compared through digests; panics classified as clean refusals or violations",
         "exploration",
-        "Size-boundary families (rules, tokens, productions, symbols per production, LR states, lexer rules) around 255 and 65535 plus ordinary grammars: each width either completes with sizes equal to the u32 build and equal digests / parse results, or is refused with the documented StorageT panic; wider widths accept whatever a narrower one accepts.",
-        "State numbers are compared up to the canonical breadth-first renumbering (item hash maps iterate differently for different index types); reduce/reduce entries as (token, loser, state). Full digest only below 40 KB of grammar text.",
+        "Size-boundary families (rules, tokens, productions, symbols per production, LR states, lexer rules) around 255 and 65535, ordinary grammars of every kind with one or two dimensions inflated to 246..261, plus ordinary grammars: each width either completes with sizes equal to the u32 build and equal digests / parse results, or is refused with the documented StorageT panic; wider widths accept whatever a narrower one accepts.",
+        "State numbers are compared literally (after fix 4e41918; first up to the canonical breadth-first renumbering for a precise signature); reduce/reduce entries as (token, loser, state). Full digest only below 40 KB of grammar text.",
         "DESIGN.md section 5, C20",
     ),
 }
